@@ -97,7 +97,7 @@ def expand(op, tid, ids, origin):
     if k == 'raw':
         return [{'t': tid, 'id': op['id'] & 0xfffffffc, 'q': op.get('q', NONE), 'a': list(op['a']), 'o': origin + '/r'}]
     if k == 'lookup':
-        eid = ids.get('VFS_LOOKUP')
+        eid = op.get('eid') or ids.get('VFS_LOOKUP')       # ('eid': another id that the scenario's table names VFS_LOOKUP as well)
         if eid is None:
             return []
         return _between(enc_lookup(op['path'].encode(), op['vnode'], eid, tid, origin), op, tid, ids, origin)
